@@ -72,6 +72,11 @@ add("C04", "exploration",
     "fake dbutils for DBFS; memory store within one process",
     "runtime monitoring: post-evaluation load monitor (same + fresh process, raw file) against a path model", "E1-pipeline")
 
+add("C03", "exploration",
+    "Signature monitor at Store.sync_paths, every variant in a brand-new interpreter: per generated program ~20 environment variants (hash seeds, cwd, package location incl. symlink, 5 store kinds, extra_debug, graph export, call vs eval, repeated evaluation, after k other evaluations, after edit+revert in-process) must give the map of the base run; a committed corpus of 40 programs must give its pinned maps byte-for-byte. Held on the programs and variants observed.",
+    "stability across library changes is only observable from the pin (corpus/pinned.json, generated after this work's fix: commits) onwards",
+    "runtime monitoring: cross-environment signature-map equality monitor + pinned-corpus regression oracle", "E1-pipeline")
+
 NOT_YET = {}
 
 
